@@ -160,6 +160,16 @@ func (it *gmapIter) next() tuple {
 	if m == nil {
 		return tuple{false, nil, nil}
 	}
+	if it.order != nil {
+		for it.pos < len(it.order) {
+			p := it.order[it.pos]
+			it.pos++
+			if p < len(m.live) && m.live[p] {
+				return tuple{true, m.keys[p], m.vals[p]}
+			}
+		}
+		return tuple{false, nil, nil}
+	}
 	for it.pos < len(m.keys) {
 		p := it.pos
 		it.pos++
@@ -171,7 +181,22 @@ func (it *gmapIter) next() tuple {
 }
 
 func (i *interpreter) mapIter(m *gmap) iter {
-	return &gmapIter{i: i, m: m}
+	it := &gmapIter{i: i, m: m}
+	// goroutine mode: the start of a map range is a symbolic choice ("pick any")
+	if i.sched != nil && i.run != nil && m != nil && m.n > 1 {
+		var livePos []int
+		for p := range m.keys {
+			if m.live[p] {
+				livePos = append(livePos, p)
+			}
+		}
+		r := i.run
+		v := r.newVar(64, "maporder", fmt.Sprintf("range start among %d entries", len(livePos)))
+		r.addPC(i.ts.Cmp(opULt, v, i.ts.Const(64, uint64(len(livePos)))))
+		k := int(r.concretize(v))
+		it.order = append(append([]int(nil), livePos[k:]...), livePos[:k]...)
+	}
+	return it
 }
 
 // lookup returns x[idx] where x is a map.
